@@ -192,13 +192,13 @@ func checkC07(c *Ctx) {
 			for _, lf := range leaves(fl, retValue(e.Ret, 1), e.Ret) {
 				nv++
 				if !c07ViewLeafOK(fl, lf) {
-					badView = append(badView, fl.K.Key(lf.Val)+" at "+p.Pos(e.Ret.Pos()))
+					badView = append(badView, lf.KeyIn(fl)+" at "+p.Pos(e.Ret.Pos()))
 				}
 			}
 			for _, lf := range leaves(fl, retValue(e.Ret, 0), e.Ret) {
 				nq++
 				if !c07QCLeafOK(fl, lf) {
-					badQC = append(badQC, fl.K.Key(lf.Val)+" at "+p.Pos(e.Ret.Pos()))
+					badQC = append(badQC, lf.KeyIn(fl)+" at "+p.Pos(e.Ret.Pos()))
 				}
 			}
 		}
@@ -225,7 +225,7 @@ func checkC07(c *Ctx) {
 }
 
 func c07ViewLeafOK(fl *Flow, lf Leaf) bool {
-	k := fl.K.Key(lf.Val)
+	k := lf.KeyIn(fl)
 	if k == "c:0" || k == "zero" {
 		return true
 	}
@@ -251,7 +251,7 @@ func c07ViewLeafOK(fl *Flow, lf Leaf) bool {
 }
 
 func c07QCLeafOK(fl *Flow, lf Leaf) bool {
-	k := fl.K.Key(lf.Val)
+	k := lf.KeyIn(fl)
 	if k == "nil" {
 		return true
 	}
